@@ -13,7 +13,8 @@ def handlerIds : List Slot → List Nat
   | .handler id :: t => id :: handlerIds t
 
 /-- `m'` is `m` except for the value stack and the list of executed handlers -/
-def SameButVsRan (m m' : M) : Prop := m' = { m with vs := m'.vs, ran := m'.ran }
+def SameButVsRan (m m' : M) : Prop :=
+  m' = { m with vs := m'.vs, ran := m'.ran, masterName := m'.masterName, simulName := m'.simulName }
 
 theorem popN_append (dv : List Slot) : ∀ (m : M) (rest : List Slot), m.vs = dv ++ rest →
     ∃ m', popN dv.length m = some m' ∧ m'.vs = rest ∧ m'.ran = (handlerIds dv).reverse ++ m.ran ∧ SameButVsRan m m' := by
@@ -33,13 +34,13 @@ theorem popN_append (dv : List Slot) : ∀ (m : M) (rest : List Slot), m.vs = dv
       · simpa [handlerIds] using hr
       · unfold SameButVsRan at *; rw [hs]
     | handler id =>
-      have h1 : popStack m = some { m with vs := dv ++ rest, ran := id :: m.ran } := by
+      have h1 : popStack m = some (runSlotHandler id { m with vs := dv ++ rest, ran := id :: m.ran }) := by
         unfold popStack; rw [h]; rfl
-      obtain ⟨m', hp, hv, hr, hs⟩ := ih { m with vs := dv ++ rest, ran := id :: m.ran } rest rfl
+      obtain ⟨m', hp, hv, hr, hs⟩ := ih (runSlotHandler id { m with vs := dv ++ rest, ran := id :: m.ran }) rest rfl
       refine ⟨m', ?_, hv, ?_, ?_⟩
       · simp only [List.length_cons, popN, h1]; exact hp
-      · simp [handlerIds, hr]
-      · unfold SameButVsRan at *; rw [hs]
+      · simp [handlerIds, hr, runSlotHandler]
+      · unfold SameButVsRan at *; rw [hs]; rfl
 
 theorem drop_to_first (dc : List Frame) (f : Frame) (cs0 : List Frame) :
     (dc ++ f :: cs0).drop ((dc ++ f :: cs0).length - (cs0.length + 1)) = f :: cs0 := by
@@ -58,7 +59,7 @@ theorem restoreContext_ext (m' : M) (dv : List Slot) (vs0 : List Slot) (dc : Lis
       m''.loadDepth = ld0 ∧ m''.restrictDestruct = rd0 ∧
       m''.catchValue = m'.catchValue ∧ m''.errState = m'.errState ∧ m''.installed = m'.installed ∧ m''.lastVerb = vb0 := by
   cases m' with
-  | mk cg r vs cs ctxs catchValue lastCatch errState loadDepth restrictDestruct inError inMudlibHandler ran installed fault shape out maxDepth staleCatch lastVerb hbCur hbOff =>
+  | mk cg r vs cs ctxs catchValue lastCatch errState loadDepth restrictDestruct inError inMudlibHandler ran installed fault shape out maxDepth staleCatch lastVerb masterName simulName savedMasterName savedSimulName hbCur hbOff =>
   simp only at hv hc
   subst hv hc
   rcases List.eq_nil_or_concat dc with hnil | ⟨dc', f, hcat⟩
@@ -67,7 +68,8 @@ theorem restoreContext_ext (m' : M) (dv : List Slot) (vs0 : List Slot) (dc : Lis
       { cg := cg0, r := r, vs := dv ++ vs0, cs := cs0, ctxs := ctxs, catchValue := catchValue, lastCatch := lastCatch,
         errState := errState, loadDepth := ld0, restrictDestruct := rd0, inError := inError,
         inMudlibHandler := inMudlibHandler, ran := ran, installed := installed, fault := fault, shape := shape,
-        out := out, maxDepth := maxDepth, staleCatch := staleCatch, lastVerb := vb0, hbCur := hbCur, hbOff := hbOff } vs0 rfl
+        out := out, maxDepth := maxDepth, staleCatch := staleCatch, lastVerb := vb0, masterName := masterName, simulName := simulName,
+        savedMasterName := savedMasterName, savedSimulName := savedSimulName, hbCur := hbCur, hbOff := hbOff } vs0 rfl
     refine ⟨m3, ?_, hv3, ?_, ?_, ?_, hr3, ?_, ?_, ?_, ?_, ?_, ?_, ?_, ?_⟩
     · have hlt : ¬ (dv.length + vs0.length < vs0.length) := by omega
       have e : dv.length + vs0.length - vs0.length = dv.length := by omega
@@ -79,7 +81,8 @@ theorem restoreContext_ext (m' : M) (dv : List Slot) (vs0 : List Slot) (dc : Lis
       { cg := cg0, r := f.saved, vs := dv ++ vs0, cs := cs0, ctxs := ctxs, catchValue := catchValue, lastCatch := lastCatch,
         errState := errState, loadDepth := ld0, restrictDestruct := rd0, inError := inError,
         inMudlibHandler := inMudlibHandler, ran := ran, installed := installed, fault := fault, shape := shape,
-        out := out, maxDepth := maxDepth, staleCatch := staleCatch, lastVerb := vb0, hbCur := hbCur, hbOff := hbOff } vs0 rfl
+        out := out, maxDepth := maxDepth, staleCatch := staleCatch, lastVerb := vb0, masterName := masterName, simulName := simulName,
+        savedMasterName := savedMasterName, savedSimulName := savedSimulName, hbCur := hbCur, hbOff := hbOff } vs0 rfl
     refine ⟨m3, ?_, hv3, ?_, ?_, ?_, hr3, ?_, ?_, ?_, ?_, ?_, ?_, ?_, ?_⟩
     · have hlen : cs0.length < (dc' ++ [f] ++ cs0).length := by simp; omega
       have hd := drop_to_first dc' f cs0
